@@ -3,6 +3,7 @@ import SlicecVerif.Drv.C11
 import SlicecVerif.Drv.C12
 import SlicecVerif.Drv.C02
 import SlicecVerif.Drv.C17
+import SlicecVerif.Drv.C04
 import SlicecVerif.Drv.C03
 import SlicecVerif.Drv.C07
 import SlicecVerif.Drv.C18
@@ -30,6 +31,7 @@ def main (args : List String) : IO UInt32 := do
     | "C02" => genC02 t s o
     | "C09" => genC09 t s o
     | "C17" => genC17 t s o
+    | "C04" => genC04 t s o
     | "C03" => genC03 t s o
     | "C07" => genC07 t s o
     | "C18" => genC18 t s o
